@@ -355,6 +355,89 @@ def _is_string(v) -> bool:
     return isinstance(v, (Quoted, Literal))
 
 
+def _is_nil(v) -> bool:
+    return v is NIL or (isinstance(v, Atom) and v.value == b'NIL')
+
+
+def _envelope_strict(s: '_S') -> list:
+    """RFC 3501 section 9, to the octet:
+    envelope = "(" env-date SP env-subject SP env-from SP env-sender SP env-reply-to SP
+               env-to SP env-cc SP env-bcc SP env-in-reply-to SP env-message-id ")"
+    env-from... = "(" 1*address ")" / nil       (no SP between the addresses)
+    address  = "(" addr-name SP addr-adl SP addr-mailbox SP addr-host ")"   (nstrings)"""
+    out = []
+    s.lit(b'(')
+    for i in range(10):
+        if i:
+            s.sp()
+        if i in (0, 1, 8, 9):
+            out.append(s.nstring())
+            continue
+        if s.peek() != 0x28:
+            s.lit(b'NIL')
+            out.append(NIL)
+            continue
+        s.lit(b'(')
+        addrs = []
+        while True:
+            if s.peek() != 0x28:
+                raise Malformed(s.i, 'envelope address list: "(" of an address expected '
+                                     '(1*address, no separator)')
+            s.lit(b'(')
+            a = [s.nstring()]
+            for _ in range(3):
+                s.sp()
+                a.append(s.nstring())
+            s.lit(b')')
+            addrs.append(a)
+            if s.peek() == 0x29:
+                s.i += 1
+                break
+        out.append(addrs)
+    s.lit(b')')
+    return out
+
+
+def _check_dsp(v, pos):
+    # body-fld-dsp = "(" string SP body-fld-param ")" / nil
+    if _is_nil(v):
+        return
+    if not isinstance(v, list) or len(v) != 2 or not _is_string(v[0]):
+        raise Malformed(pos, f'body disposition must be NIL or (string params), got {v!r:.80}')
+    _check_params(v[1], pos)
+
+
+def _check_params(p, pos):
+    if _is_nil(p):
+        return
+    if not isinstance(p, list) or len(p) % 2 or not p or not all(_is_string(x) for x in p):
+        raise Malformed(pos, 'body parameter list malformed')
+
+
+def _check_lang(v, pos):
+    # body-fld-lang = nstring / "(" string *(SP string) ")"
+    if _is_nil(v) or _is_string(v):
+        return
+    if not isinstance(v, list) or not v or not all(_is_string(x) for x in v):
+        raise Malformed(pos, 'body language must be an nstring or a list of strings')
+
+
+def _check_ext(v, i, pos, multipart):
+    """extension data from index i: [params (multipart) | md5 (single)] [dsp [lang [loc *ext]]]"""
+    if i >= len(v):
+        return
+    if multipart:
+        _check_params(v[i], pos)
+    else:
+        _check_nstring(v[i], pos, 'body MD5')
+    if i + 1 < len(v):
+        _check_dsp(v[i + 1], pos)
+    if i + 2 < len(v):
+        _check_lang(v[i + 2], pos)
+    if i + 3 < len(v):
+        _check_nstring(v[i + 3], pos, 'body location')
+
+
 def _check_body(v, pos, depth=0):
     if not isinstance(v, list) or not v:
         raise Malformed(pos, 'body structure must be a non-empty list')
@@ -368,6 +451,7 @@ def _check_body(v, pos, depth=0):
             i += 1
         if i >= len(v) or not _is_string(v[i]):
             raise Malformed(pos, 'multipart body lacks subtype string')
+        _check_ext(v, i + 1, pos, True)
         return
     # single part: type subtype params id desc enc size ...
     if len(v) < 7:
@@ -390,6 +474,7 @@ def _check_body(v, pos, depth=0):
     if t == b'TEXT':
         if len(v) < 8 or not isinstance(v[7], int):
             raise Malformed(pos, 'text body lacks line count')
+        _check_ext(v, 8, pos, False)
     elif t == b'MESSAGE' and st == b'RFC822':
         if len(v) < 10:
             raise Malformed(pos, 'message/rfc822 body lacks envelope/body/lines')
@@ -397,6 +482,9 @@ def _check_body(v, pos, depth=0):
         _check_body(v[8], pos, depth + 1)
         if not isinstance(v[9], int):
             raise Malformed(pos, 'message/rfc822 body lacks line count')
+        _check_ext(v, 10, pos, False)
+    else:
+        _check_ext(v, 7, pos, False)
 
 
 _SECTION_RE = re.compile(
@@ -449,8 +537,7 @@ def _fetch_att(s: _S) -> dict:
                 raise Malformed(vpos, f'bad date-time {q.value!r}')
             val = q.value
         elif name == b'ENVELOPE':
-            val = s.value()
-            _check_envelope(val, vpos)
+            val = _envelope_strict(s)
         elif name in (b'BODYSTRUCTURE',) or (name == b'BODY' and key == b'BODY'):
             val = s.value()
             _check_body(val, vpos)
